@@ -81,6 +81,7 @@ def units(tier):
 def meta(tier):
     q = tier == "quick"
     return dict(bounds=dict(shapes=list(SHAPES), declaration_subsets="every subset of the scopes of each shape", name_len=3 if q else [3, 4],
+                            spelling="0-2 blanks between the referenced name and '('", history="the program under test alone, or after a parse aborted by SymbolTableError inside a subroutine / a BLOCK of a module subprogram (same parser)",
                             symbolic="the declared / referenced name: every name [A-Za-z][A-Za-z0-9_]* of that length (all intrinsics of that length included)"),
                 assumptions=["the argument count of the reference (1-3) is the first one the parser accepts when nothing is declared",
                              "names equal to statement keywords are excluded"],
